@@ -56,6 +56,12 @@ CHECKS = {
         text="TLC checks AllOrNothing and StylePreserved on every (file system, document) pair of the alphabet (32 initial file systems x all 1-operation and 2-operation documents incl. hunks with missing / repeated / grown / shrunk / before-the-cursor context, moves onto existing files and onto themselves, nine malformed-document classes) and prints Apply for each; the real library call and the tool must succeed or fail as predicted, leave exactly the predicted bytes (or the untouched tree) and report exactly the named files.",
         note="Three paths (one nested), three-line alphabet, files <= 3 lines; directories left behind by a rolled-back add are allowed; mixed line endings inside one file are outside the alphabet.",
         ref="4 C12"),
+    "C13": dict(
+        engine="PathGuard",
+        technique="TLA+ spec PathGuard (path shapes x operations, guard Refused, GuardSound) checked with TLC; every (operation, shape) TLC enumerates is executed through the real router inside a sentinel tree with canaries, for two working directories and with/without active ignore files outside the root",
+        text="TLC proves GuardSound (a path the guard accepts stays lexically inside the root) over all shapes up to the component bound and prints each (operation, shape) with Refused; each is run for read / write / ls / grep / apply_patch / checkpoint create (+ later rewind) / checkpoint rewind / shell cwd / task cwd through the real router (so the auto-checkpoint hook sees the raw argument), with the full sentinel tree hashed before and after: nothing outside changes, refused requests fail and change neither workspace nor checkpoint store, no canary content reaches frames or the store, ls/grep answers are independent of ignore files outside the root.",
+        note="'Nothing outside is read' is observed through canaries and active ignore files, not proved; symlinks already inside the workspace are out of scope; one recorded finding (D17).",
+        ref="4 C13"),
     "C15": dict(
         engine="Sse",
         technique="TLA+ specs SseLines (SseDecoder::push/finish transcribed) and Utf8 (push_bytes carry transcribed) model-checked with TLC over all streams x all partitions; every stream replayed on the real decoder under token-boundary, single-byte and byte-at-a-time partitions and through real runs with controlled TCP chunking",
